@@ -4238,6 +4238,226 @@ def _param_aliases(fn, params):
     return out
 
 
+_MUTABLE_CTORS = ("dict", "list", "set", "defaultdict", "OrderedDict", "collections.defaultdict", "collections.OrderedDict")
+
+
+def _mutable_literal(e):
+    """a freshly built mutable container: {} / [] / set() / dict() / a comprehension"""
+    return isinstance(e, (ast.Dict, ast.List, ast.Set, ast.DictComp, ast.ListComp, ast.SetComp)) or \
+        (isinstance(e, ast.Call) and src(e.func) in _MUTABLE_CTORS)
+
+
+def _class_chain(mod, cls_name):
+    """the class and its base classes defined in this module, nearest first"""
+    out, todo = [], [cls_name]
+    while todo:
+        c = todo.pop(0)
+        if c in [x.name for x in out] or not mod.has(c):
+            continue
+        try:
+            cdef = mod.cls(c)
+        except Exception:
+            continue
+        out.append(cdef)
+        todo += [src(b).split(".")[-1] for b in cdef.bases]
+    return out
+
+
+def shared_table_scope(mod, cls_name, m, tab):
+    """is the table expression `tab` (the subscripted object of a store in method m) ONE object for every instance of the class?
+    -> a description of why it is shared, or None.  Shared: a parameter whose default is a mutable container (the default is evaluated
+    once, at the def), a module-level name bound to a mutable container, an attribute reached through the class (`cls.X`, `C.X`,
+    `type(self).X`, `self.__class__.X`), and `self.X` when X is a class-body container that no method rebinds on the instance."""
+    chain = _class_chain(mod, cls_name)
+    if isinstance(tab, ast.Name):
+        pos = m.args.posonlyargs + m.args.args
+        defaults = dict(zip([a.arg for a in pos][len(pos) - len(m.args.defaults):], m.args.defaults))
+        defaults.update({a.arg: d for a, d in zip(m.args.kwonlyargs, m.args.kw_defaults) if d is not None})
+        if tab.id in defaults:
+            if _mutable_literal(defaults[tab.id]):
+                return f"`{tab.id}` is the default value `{src(defaults[tab.id])}` of a parameter: it is built once, when the def is executed, " \
+                       "and is the same object in every call on every instance"
+            return None
+        if any(isinstance(n, ast.Name) and n.id == tab.id and isinstance(n.ctx, ast.Store) for n in ast.walk(m)):
+            return None
+        tree = getattr(mod, "tree", None)
+        for st_ in getattr(tree, "body", ()):
+            tg = st_.targets if isinstance(st_, ast.Assign) else [st_.target] if isinstance(st_, ast.AnnAssign) and st_.value is not None else []
+            if any(isinstance(t, ast.Name) and t.id == tab.id for t in tg) and _mutable_literal(st_.value):
+                return f"`{tab.id}` is a module-level container: one object for the whole process"
+        return None
+    if isinstance(tab, ast.Attribute):
+        recv = src(tab.value)
+        body_def = any(isinstance(st_, (ast.Assign, ast.AnnAssign)) and getattr(st_, "value", None) is not None and _mutable_literal(st_.value)
+                       and any(isinstance(t, ast.Name) and t.id == tab.attr
+                               for t in (st_.targets if isinstance(st_, ast.Assign) else [st_.target]))
+                       for c in chain for st_ in c.body)
+        if recv in ("cls", "type(self)", "self.__class__") or recv in [c.name for c in chain]:
+            return f"`{src(tab)}` is an attribute of the class: one object for every instance"
+        if recv == "self" and body_def:
+            rebound = any(isinstance(n, ast.Attribute) and isinstance(n.ctx, ast.Store) and src(n) == src(tab)
+                          for c in chain for n in ast.walk(c))
+            if not rebound:
+                return f"`{src(tab)}` is a container built in the class body and never rebound on the instance: one object for every instance"
+    return None
+
+
+def instance_dependent_attrs(mod, cls_name):
+    """attributes `self.X` whose value is derived from the arguments of a method of the class (the constructor's in particular): they
+    differ from one instance to the next.  A may-analysis by propagation over the assignments of each method: a local is derived from an
+    argument when its right-hand side (or the iterable of an enclosing loop) mentions an argument or a derived local / attribute."""
+    chain = _class_chain(mod, cls_name)
+    fns = [f for c in chain for f in c.body if isinstance(f, ast.FunctionDef)]
+    attrs = set()
+    for _ in range(6):
+        before = len(attrs)
+        for f in fns:
+            names = {a.arg for a in f.args.posonlyargs + f.args.args + f.args.kwonlyargs if a.arg not in ("self", "cls")}
+            if f.args.vararg:
+                names.add(f.args.vararg.arg)
+            if f.args.kwarg:
+                names.add(f.args.kwarg.arg)
+
+            def dep(e):
+                for n in ast.walk(e):
+                    if isinstance(n, ast.Name) and n.id in names:
+                        return True
+                    if isinstance(n, ast.Attribute) and isinstance(n.value, ast.Name) and n.value.id == "self" and n.attr in attrs:
+                        return True
+                return False
+
+            def mark(t):
+                for n in ast.walk(t):
+                    if isinstance(n, ast.Name) and isinstance(n.ctx, ast.Store):
+                        names.add(n.id)
+                base = t
+                while isinstance(base, (ast.Subscript, ast.Starred)):
+                    base = base.value
+                if isinstance(base, ast.Attribute) and isinstance(base.value, ast.Name) and base.value.id == "self":
+                    attrs.add(base.attr)
+                if isinstance(t, (ast.Tuple, ast.List)):
+                    for e in t.elts:
+                        mark(e)
+
+            for _i in range(4):
+                n0, a0 = len(names), len(attrs)
+                for n in ast.walk(f):
+                    if isinstance(n, ast.Assign) and dep(n.value):
+                        for t in n.targets:
+                            mark(t)
+                    elif isinstance(n, (ast.AnnAssign, ast.AugAssign)) and n.value is not None and dep(n.value):
+                        mark(n.target)
+                    elif isinstance(n, ast.NamedExpr) and dep(n.value):
+                        mark(n.target)
+                    elif isinstance(n, (ast.For, ast.comprehension)) and dep(n.iter):
+                        mark(n.target)
+                    elif isinstance(n, ast.Call) and isinstance(n.func, ast.Attribute) and n.func.attr in ("append", "extend", "insert", "update",
+                                                                                                          "add", "setdefault") \
+                            and any(dep(a) for a in list(n.args) + [k.value for k in n.keywords]):
+                        mark(n.func.value)
+                if (len(names), len(attrs)) == (n0, a0):
+                    break
+        if len(attrs) == before:
+            break
+    return attrs
+
+
+_MUTATORS = ("update", "pop", "popitem", "clear", "setdefault", "append", "extend", "insert", "remove", "sort", "reverse", "add", "discard",
+             "__setitem__", "__delitem__")
+
+
+def shared_container_aliasing(chk, mod, cls_name, rule, file, consequence=""):
+    """state of ONE instance kept in an object that every instance shares: `self.X = T` where T is a module-level container, a
+    class-body container or a mutable default argument, bound WITHOUT a copy, and a method of the class changes `self.X` in place
+    (item store / delete, augmented item assignment, a mutating method - directly or through a local bound once to `self.X`).
+    ASSUMPTIONS (all checked): the right-hand side is the plain name T (no dict(T) / T.copy() / {**T} / list(T) / slicing); T is bound
+    to a freshly built mutable container at module level, in the class body, or as a default of that method; the attribute is bound by
+    no other statement of the class to something else (else: undecided); the in-place change is made on the object the attribute
+    holds.  Holds when such an attribute is only read; nothing is recorded when no attribute aliases a shared container."""
+    chain = _class_chain(mod, cls_name)
+    if not chain:
+        return
+    cdef = chain[0]
+    tree = getattr(mod, "tree", None)
+    modlevel = {}
+    for st_ in getattr(tree, "body", ()):
+        tg = st_.targets if isinstance(st_, ast.Assign) else [st_.target] if isinstance(st_, ast.AnnAssign) and st_.value is not None else []
+        for t in tg:
+            if isinstance(t, ast.Name):
+                modlevel[t.id] = st_.value if _mutable_literal(st_.value) else None
+    classlevel = {}
+    for c in chain:
+        for st_ in c.body:
+            if isinstance(st_, ast.Assign) and _mutable_literal(st_.value):
+                for t in st_.targets:
+                    if isinstance(t, ast.Name):
+                        classlevel.setdefault(t.id, st_.value)
+    fns = [f for c in chain for f in c.body if isinstance(f, ast.FunctionDef)]
+    binds = {}          # attr -> [(fn, stmt, why shared | None)]
+    for f in fns:
+        pos = f.args.posonlyargs + f.args.args
+        defaults = dict(zip([a.arg for a in pos][len(pos) - len(f.args.defaults):], f.args.defaults))
+        defaults.update({a.arg: d for a, d in zip(f.args.kwonlyargs, f.args.kw_defaults) if d is not None})
+        local_stores = {n.id for n in ast.walk(f) if isinstance(n, ast.Name) and isinstance(n.ctx, ast.Store)}
+        for n in ast.walk(f):
+            if not (isinstance(n, ast.Assign) or (isinstance(n, ast.AnnAssign) and n.value is not None)):
+                continue
+            for t in (n.targets if isinstance(n, ast.Assign) else [n.target]):
+                if not (isinstance(t, ast.Attribute) and isinstance(t.value, ast.Name) and t.value.id == "self"):
+                    continue
+                v, why = n.value, None
+                if isinstance(v, ast.Name) and v.id not in local_stores:
+                    if v.id in defaults:
+                        if _mutable_literal(defaults[v.id]):
+                            why = f"`{v.id}`, whose default `{src(defaults[v.id])}` is built once when the def is executed (callers that omit " \
+                                  "the argument all get that one object)"
+                    elif v.id in {a.arg for a in pos + f.args.kwonlyargs}:
+                        why = None
+                    elif modlevel.get(v.id) is not None:
+                        why = f"the module-level container `{v.id} = {src(modlevel[v.id])[:50]}`"
+                elif isinstance(v, ast.Attribute) and v.attr in classlevel and \
+                        src(v.value) in ("cls", "type(self)", "self.__class__", "self") + tuple(c.name for c in chain):
+                    rebound = any(isinstance(x, ast.Attribute) and isinstance(x.ctx, ast.Store) and x.attr == v.attr
+                                  and isinstance(x.value, ast.Name) and x.value.id == "self" for c in chain for x in ast.walk(c))
+                    if not (src(v.value) == "self" and rebound):
+                        why = f"the class-body container `{v.attr} = {src(classlevel[v.attr])[:50]}`"
+                binds.setdefault(t.attr, []).append((f, n, why))
+    for attr, bs in sorted(binds.items()):
+        shared_b = [b for b in bs if b[2]]
+        if not shared_b:
+            continue
+        target = f"self.{attr}"
+        muts = []
+        for f in fns:
+            stores = {}
+            for n in ast.walk(f):
+                if isinstance(n, ast.Name) and isinstance(n.ctx, ast.Store):
+                    stores[n.id] = stores.get(n.id, 0) + 1
+            al = {target}
+            for n in ast.walk(f):
+                if isinstance(n, ast.Assign) and len(n.targets) == 1 and isinstance(n.targets[0], ast.Name) and stores.get(n.targets[0].id) == 1 \
+                        and src(n.value) == target:
+                    al.add(n.targets[0].id)
+            for n in ast.walk(f):
+                if isinstance(n, ast.Subscript) and isinstance(n.ctx, (ast.Store, ast.Del)) and src(n.value) in al:
+                    muts.append((f, n, f"`{src(n)}` is stored/deleted in {f.name}"))
+                elif isinstance(n, ast.Call) and isinstance(n.func, ast.Attribute) and n.func.attr in _MUTATORS and src(n.func.value) in al:
+                    muts.append((f, n, f"`{src(n)[:60]}` in {f.name}"))
+        f0, n0, why0 = shared_b[0]
+        what = f"{cls_name}.{f0.name}: `{src(n0)[:70]}`"
+        q = f"{cls_name}.{f0.name}"
+        if not muts:
+            chk.ob(rule, n0, what, True, f"`{target}` is {why0}, shared by every {cls_name}; no method changes it in place", file=file, func=q)
+        elif len(shared_b) != len(bs):
+            chk.ob(rule, n0, what, None, f"cannot decide: `{target}` is bound to {why0} here and to something else at line "
+                   f"{[b[1].lineno for b in bs if not b[2]][0]}; which object {muts[0][2]} changes is not established", file=file, func=q)
+        else:
+            chk.ob(rule, muts[0][1], what, False,
+                   f"`{target}` is {why0} itself, not a copy: every {cls_name} of the process holds the same object, and "
+                   f"{'; '.join(sorted({m_[2] for m_ in muts})[:3])} changes it in place - a change made for one instance is seen by all the others"
+                   + (f" - {consequence}" if consequence else ""), file=file, func=f"{cls_name}.{muts[0][0].name}")
+
+
 def memo_key_coverage(chk, mod, cls_name):
     """G5-memo-key: a method that keeps its result in a table of the object (`v = self.T.get(key)` / `key in self.T` / `self.T[key]`,
     filled with `self.T[key] = <result>`) must build the key from everything of its arguments that the result is computed from.
@@ -4257,11 +4477,16 @@ def memo_key_coverage(chk, mod, cls_name):
         if not params:
             continue
         # tables of self that are both looked up and filled under one key expression in this method
+        # (... or of a container shared by every instance: a mutable default argument, a class attribute, a module-level table)
         fills = [n for n in ast.walk(m) if isinstance(n, ast.Assign) and len(n.targets) == 1 and isinstance(n.targets[0], ast.Subscript)
-                 and isinstance(n.targets[0].value, ast.Attribute) and isinstance(n.targets[0].value.value, ast.Name)
-                 and n.targets[0].value.value.id == "self"]
+                 and ((isinstance(n.targets[0].value, ast.Attribute) and isinstance(n.targets[0].value.value, ast.Name)
+                       and n.targets[0].value.value.id == "self")
+                      or shared_table_scope(mod, cls_name, m, n.targets[0].value) is not None)]
+        all_params = params
         for fill in fills:
             tab = src(fill.targets[0].value)
+            shared = shared_table_scope(mod, cls_name, m, fill.targets[0].value)
+            params = [p_ for p_ in all_params if p_ != tab]
             kx = fill.targets[0].slice
             ktxt = src(kx)
             looked = any((isinstance(x, ast.Call) and isinstance(x.func, ast.Attribute) and x.func.attr == "get" and src(x.func.value) == tab
@@ -4337,6 +4562,35 @@ def memo_key_coverage(chk, mod, cls_name):
                             skip |= {id(y) for y in ast.walk(k_)}
             vfoot, vloose = _access_footprint(body, hp, _param_aliases(h, hp) if h is not m else aliases, skip)
             bad, und = [], []
+            if shared:
+                # the table outlives / is common to the instances: the result must not depend on the state of the instance either.
+                # ASSUMPTIONS (checked): the table is one object for every instance (shared_table_scope: default argument / class
+                # attribute / module-level container); the computation of the stored value reads `self.X`; X is not a component of the
+                # key; X is derived from the arguments of a method of the class (instance_dependent_attrs), so that two instances can
+                # hold different values.  Anything else read from self (a method call, an attribute whose origin is not seen) is
+                # undecided.
+                inst = instance_dependent_attrs(mod, cls_name)
+                ktext = " ".join(src(k_) for k_ in key_nodes)
+                meth_names = {f.name for c in _class_chain(mod, cls_name) for f in c.body if isinstance(f, ast.FunctionDef)}
+                seen_attr = set()
+                for top in body:
+                    for x in ast.walk(top):
+                        if not (isinstance(x, ast.Attribute) and isinstance(x.value, ast.Name) and x.value.id == "self"
+                                and isinstance(x.ctx, ast.Load)) or src(x) == tab or x.attr in seen_attr:
+                            continue
+                        seen_attr.add(x.attr)
+                        if f"self.{x.attr}" in ktext:
+                            continue
+                        if x.attr in meth_names:
+                            und.append(f"the computation calls/reads `self.{x.attr}` (line {x.lineno}) of the instance while the table is shared "
+                                       "by all instances; what it reads of the instance is not followed")
+                        elif x.attr in inst:
+                            bad.append(f"{shared}; the result is computed from `self.{x.attr}` (line {x.lineno}), which is set from the "
+                                       f"arguments of the instance's constructor/methods and is not part of the key: a second {cls_name} whose "
+                                       f"`{x.attr}` differs is handed the result computed for the first one")
+                        else:
+                            und.append(f"the computation reads `self.{x.attr}` (line {x.lineno}) while the table is shared by all instances; "
+                                       "whether it differs between instances is not established")
             for p_ in vloose:
                 if p_ not in kloose:
                     und.append(f"the computation uses the argument `{p_}` as a whole (line {getattr(vloose[p_], "lineno", "?")}): what it reads of it "
@@ -4368,9 +4622,9 @@ def memo_key_coverage(chk, mod, cls_name):
                                    "inside the part in the key is not established")
             if bad:
                 chk.ob(rule, fill, what, False,
-                       "; ".join(bad) + f": two calls whose arguments agree on the key but differ elsewhere in that attribute get the result of "
-                       f"the first one (computed in {cls_name}.{h.name}) - for the swap axes of a transpose: the pack/unpack kernels split and "
-                       "concatenate along the axes of another pair of layouts", file=U.LAYOUT, func=q)
+                       "; ".join(bad) + f": two calls whose arguments agree on the key but differ elsewhere in what the result is computed from "
+                       f"get the result of the first one (computed in {cls_name}.{h.name}) - for the swap axes of a transpose: the pack/unpack "
+                       "kernels split and concatenate along the axes of another pair of layouts", file=U.LAYOUT, func=q)
             elif und:
                 chk.ob(rule, fill, what, None, "cannot decide: " + "; ".join(und), file=U.LAYOUT, func=q)
             else:
@@ -4423,6 +4677,8 @@ def handler_contract(chk, mod):
                    f"a possible change of an object handed out by a Layout that could not be established: {why_}", file=U.LAYOUT, func=q)
     engine(chk, "G5-memo-key", raw.cls(CLS), "results kept in a table under a key built from the arguments", memo_key_coverage, chk, raw, CLS,
            file=U.LAYOUT, func=CLS)
+    engine(chk, "G5-instance-owned-state", raw.cls(CLS), "state of one handler kept in a container shared by all handlers",
+           shared_container_aliasing, chk, raw, CLS, "G5-instance-owned-state", U.LAYOUT, file=U.LAYOUT, func=CLS)
     chk.floor("G1-", 6)
     chk.floor("G3-", 2)
     chk.floor("P1-", 4)
